@@ -184,6 +184,12 @@ func (c *Ctx) call(caller *Frame, fn *ssa.Function, args []Value, env []Value) V
 	if in, ok := intrinsics[name]; ok {
 		return in(c, caller, fn, args)
 	}
+	if isLogLike(name) {
+		if strings.Contains(name, "Fatal") || strings.Contains(name, "Panic") {
+			panic(pathEnd{"log.Fatal"})
+		}
+		return inNopZero(c, caller, fn, args)
+	}
 	if fn.Blocks == nil {
 		if in := c.externalFallback(name); in != nil {
 			return in(c, caller, fn, args)
@@ -235,6 +241,7 @@ func (c *Ctx) noteFn(fn *ssa.Function) {
 }
 
 func (c *Ctx) runFrame(fr *Frame) Value {
+	c.cur = fr
 	var prev *ssa.BasicBlock
 	b := fr.fn.Blocks[0]
 	visits := 0
@@ -294,12 +301,14 @@ func (c *Ctx) runFrame(fr *Frame) Value {
 					}
 					res = t
 				}
+				c.cur = fr.caller
 				return res
 			case *ssa.Panic:
 				fr.pos = in.Pos()
 				c.explicitPanic(fr, c.get(fr, in.X))
 			default:
 				c.exec(fr, in)
+				c.cur = fr
 			}
 		}
 		if next == nil {
